@@ -259,10 +259,12 @@ class P:
             self.take("p", "(")
             if self.at("kw", "SELECT") or self.at("p", "("):
                 raise ParseError("sub-query container")
-            items = [self.p_or()]
-            while self.at("p", ","):
-                self.take()
-                items.append(self.p_or())
+            items = []
+            if not self.at("p", ")"):           # `x IN ()`: the empty list has one reading
+                items = [self.p_or()]
+                while self.at("p", ","):
+                    self.take()
+                    items.append(self.p_or())
             self.take("p", ")")
             return ("in", neg, l, items)
         if t.val == "BETWEEN":
